@@ -1,9 +1,12 @@
 (** C09 (connection level) — model of the request path AROUND the range arithmetic:
     [kvarn::handle_cache] (src/lib.rs: [sanitize_request] computed once, BEFORE the response-cache
-    lookup; the cache-hit guard [sanitize_data.is_ok() && GET|HEAD]; the miss path
-    [get_response] -> handler or [sanitize_error_into_response]; [maybe_cache]) and
-    [SendKind::send] (range applied to the CONTENT-ENCODED body that [clone_preferred] chose,
-    the 416 short-circuit, [ensure_length] after slicing, no body for HEAD).
+    lookup; the cache-hit guard [sanitize_data.is_ok() && GET|HEAD]; on a hit the [If-Modified-Since]
+    test that builds an empty 304; the miss path [get_response] -> handler or
+    [sanitize_error_into_response]; [maybe_cache], GET|HEAD only) and
+    [SendKind::send] (range applied to the CONTENT-ENCODED body that [clone_preferred] chose — not to
+    a 304 —, the 416 short-circuit, [ensure_length] after slicing, no body for HEAD), and of
+    [extensions::stream_body] (a file streamed through a response-pipe future: range parsed by the
+    extension itself, [apply_to_response] skipped).
     The range arithmetic itself is Model/Range.v.  Definitions only; proofs in
     Proofs/RangeConnProofs.v. *)
 From KV Require Export Bytes RustInt Range.
@@ -18,27 +21,46 @@ Definition page := list repr.
 Definition no_repr : repr := {| rp_encoding := None; rp_body := [] |}.
 Definition choose (pg : page) (ae : N) : repr := nth (N.to_nat ae) pg no_repr.
 
-Inductive meth := GET | HEAD.
-Record creq := { q_method : meth; q_ae : N; q_range : option bytes }.
+(** [POST] stands for every method that is neither GET nor HEAD. *)
+Inductive meth := GET | HEAD | POST.
+Definition get_or_head (m : meth) : bool := match m with POST => false | _ => true end.
+
+(** A request: method, Accept-Encoding class, the values of its [Range] header LINES in order, and
+    its [If-Modified-Since] class (1 = not older than the cached response: the client's copy is
+    fresh; anything else = absent / older / unparsable). *)
+Record rreq := { rq_method : meth; rq_ae : N; rq_ranges : list bytes; rq_ims : N }.
+(** [request.headers().get("range")]: the HTTP/1 request parser stores each header line with
+    [HeaderMap::insert] (utils/src/parse.rs), so the map holds the LAST line. *)
+Definition rq_range (q : rreq) : option bytes := hd_error (rev (rq_ranges q)).
+Definition fresh (q : rreq) : bool := N.eqb (rq_ims q) 1.
 
 (** What layer 4 ([handle_cache]) hands to [send]. *)
 Inductive layer4 :=
-| L4Repr (r : repr)      (** a 200 representation, from the response cache or freshly made *)
+| L4Resp (status : N) (r : repr) (** the handler's status and a representation (from the response cache or
+                                     freshly made), or the empty 304 *)
 | L4Error416.            (** [error::sanitize_error_into_response]; ServerCachePreference::None, never stored *)
 
 (** [handle_cache].  [cache] is the response-cache entry of this URI ([None] = absent),
-    [caching] = the host has a response cache and the page's server cache preference stores it.
+    [caching] = the host has a response cache, the page's server cache preference stores it and
+    [status_code_cache_filter] lets the handler's [status] in.
     [sd] is [sanitize_request]'s result (range part). *)
-Definition handle_cache_m (caching : bool) (pg : page) (cache : option page) (q : creq)
+Definition handle_cache_m (caching : bool) (status : N) (pg : page) (cache : option page) (q : rreq)
     (sd : outcome (option (N * N))) : layer4 * option page :=
-  match cache, sd with
-  | Some stored, Ok _ =>
-      (* "Found in cache!": guard [sanitize_data.is_ok() && matches!(method, GET | HEAD)] *)
-      (L4Repr (choose stored (q_ae q)), cache)
-  | _, Ok _ =>
-      (* get_response -> handle_request; clone_preferred; maybe_cache *)
-      (L4Repr (choose pg (q_ae q)), if caching then Some pg else cache)
-  | _, _ =>
+  let miss := (* get_response -> handle_request; clone_preferred; maybe_cache (GET | HEAD only) *)
+    (L4Resp status (choose pg (rq_ae q)),
+     if caching && get_or_head (rq_method q) then Some pg else cache) in
+  match sd with
+  | Ok _ =>
+      match cache with
+      | Some stored =>
+          (* "Found in cache!": guard [sanitize_data.is_ok() && matches!(method, GET | HEAD)] *)
+          if get_or_head (rq_method q) then
+            if fresh q then (L4Resp 304 no_repr, cache)      (* client_request_is_fresh: Response::new(Bytes::new()), 304 *)
+            else (L4Resp status (choose stored (rq_ae q)), cache)
+          else miss
+      | None => miss
+      end
+  | _ =>
       (* get_response -> sanitize_error_into_response; not cached *)
       (L4Error416, cache)
   end.
@@ -60,72 +82,117 @@ Definition on_wire (m : meth) (enc : option bytes) (r : ranged) : wire :=
      w_content_length := N.of_nat (length (r_body r));
      w_content_encoding := enc;
      w_accept_ranges := r_accept_ranges r;
-     w_body := match m with GET => r_body r | HEAD => [] end |}.
+     w_body := match m with HEAD => [] | _ => r_body r end |}.
 
-(** [SendKind::send]. *)
-Definition send_m (checked : bool) (m : meth) (sd : outcome (option (N * N))) (l4 : layer4)
+Definition untouched (status : N) (body : bytes) : ranged :=
+  {| r_status := status; r_content_range := None; r_accept_ranges := false; r_body := body |}.
+
+(** [SendKind::send].  [guard304 = true] is today's code (a 304 is sent as it is);
+    [guard304 = false] is kvarn 0.6.3, which applied the range to the empty body of the 304. *)
+Definition send_gen (guard304 checked : bool) (m : meth) (sd : outcome (option (N * N))) (l4 : layer4)
   : outcome wreply :=
   match l4 with
   | L4Error416 => Ok W416
-  | L4Repr rp =>
+  | L4Resp status rp =>
       match sd with
       | Ok range =>
-          match apply_range checked range 200 (rp_body rp) with
+          if guard304 && N.eqb status 304 then
+            Ok (WResp (on_wire m (rp_encoding rp) (untouched status (rp_body rp))))
+          else
+          match apply_range checked range status (rp_body rp) with
           | Panic => Panic
           | Err _ => Ok W416               (* default_error(416, "Range start after end of body") *)
           | Ok r => Ok (WResp (on_wire m (rp_encoding rp) r))
           end
       | Err _ =>
           (* [if let Ok(data) = &data] is false: the representation is sent untouched
-             (never reached with today's cache-hit guard — see conn_step_spec) *)
-          Ok (WResp (on_wire m (rp_encoding rp)
-                {| r_status := 200; r_content_range := None; r_accept_ranges := false;
-                   r_body := rp_body rp |}))
+             (never reached with today's cache-hit guard — see rstep_spec) *)
+          Ok (WResp (on_wire m (rp_encoding rp) (untouched status (rp_body rp))))
       | Panic => Panic
       end
   end.
+Definition send_m := send_gen true.
+Definition send_m_063 := send_gen false.
 
 (** One request on the connection: reply and the new cache entry. *)
-Definition conn_step (checked caching : bool) (pg : page) (cache : option page) (q : creq)
+Definition rstep_gen (guard304 checked caching : bool) (status : N) (pg : page) (cache : option page) (q : rreq)
   : outcome wreply * option page :=
-  let sd := sanitize_range (q_range q) in
-  let (l4, cache') := handle_cache_m caching pg cache q sd in
-  (send_m checked (q_method q) sd l4, cache').
+  let sd := sanitize_range (rq_range q) in
+  let (l4, cache') := handle_cache_m caching status pg cache q sd in
+  (send_gen guard304 checked (rq_method q) sd l4, cache').
+Definition rstep := rstep_gen true.
+Definition rstep_063 := rstep_gen false.
 
-Fixpoint serve_history (checked caching : bool) (pg : page) (cache : option page) (reqs : list creq)
+Fixpoint serve_history (checked caching : bool) (status : N) (pg : page) (cache : option page) (reqs : list rreq)
   : outcome (list wreply) :=
   match reqs with
   | [] => Ok []
   | q :: rest =>
-      let (o, cache') := conn_step checked caching pg cache q in
+      let (o, cache') := rstep checked caching status pg cache q in
       obind o (fun w =>
-      obind (serve_history checked caching pg cache' rest) (fun ws => Ok (w :: ws)))
+      obind (serve_history checked caching status pg cache' rest) (fun ws => Ok (w :: ws)))
   end.
 
 (** The reply to [q] after the history prefix [pre] on a host that started with an empty cache. *)
-Definition reply_after (checked caching : bool) (pg : page) (pre : list creq) (q : creq)
+Definition reply_after (checked caching : bool) (status : N) (pg : page) (pre : list rreq) (q : rreq)
   : outcome wreply :=
-  obind (serve_history checked caching pg None (pre ++ [q])) (fun ws => Ok (last ws W416)).
+  obind (serve_history checked caching status pg None (pre ++ [q])) (fun ws => Ok (last ws W416)).
 
-(** ---- Specification: [range_spec] of the representation a request WITHOUT Range receives
-    under the same Accept-Encoding; nothing else of the history matters. ---- *)
+(** ---- Specification ----
+    [a > b] is refused with 416 whatever else the request says.  Otherwise: when the same request
+    without Range is answered 304 (the server holds the response, the method is GET/HEAD and the
+    client's copy is fresh) there is no representation to take a range of and the answer is that 304;
+    else the answer is [range_spec] of the representation a request WITHOUT Range receives under the
+    same Accept-Encoding.  [stored] = the server holds the response of this URI. *)
 Definition header_range (hdr : option bytes) : option (N * N) :=
   match hdr with Some v => parse_range v | None => None end.
+Definition rejected (hdr : option bytes) : bool :=
+  match header_range hdr with Some (a, c) => c <? a | None => false end.
 
-Definition wire_spec (m : meth) (rp : repr) (hdr : option bytes) : wreply :=
-  match range_spec (header_range hdr) (rp_body rp) with
+Definition wire_of (m : meth) (enc : option bytes) (r : range_reply) : wreply :=
+  match r with
   | R416 => W416
   | RResp r =>
       WResp {| w_status := r_status r;
                w_content_range := r_content_range r;
                w_content_length := N.of_nat (length (r_body r));
-               w_content_encoding := rp_encoding rp;
+               w_content_encoding := enc;
                w_accept_ranges := r_accept_ranges r;
-               w_body := match m with GET => r_body r | HEAD => [] end |}
+               w_body := match m with HEAD => [] | _ => r_body r end |}
   end.
-Definition reply_spec (pg : page) (q : creq) : wreply :=
-  wire_spec (q_method q) (choose pg (q_ae q)) (q_range q).
-Definition history_spec (pg : page) (reqs : list creq) : list wreply := map (reply_spec pg) reqs.
+Definition wire_spec (status : N) (m : meth) (rp : repr) (hdr : option bytes) : wreply :=
+  wire_of m (rp_encoding rp) (range_spec_st status (header_range hdr) (rp_body rp)).
+Definition not_modified : wreply :=
+  WResp {| w_status := 304; w_content_range := None; w_content_length := 0;
+           w_content_encoding := None; w_accept_ranges := false; w_body := [] |}.
+Definition answers_304 (stored : bool) (q : rreq) : bool :=
+  stored && get_or_head (rq_method q) && fresh q.
+Definition reply_spec (status : N) (pg : page) (stored : bool) (q : rreq) : wreply :=
+  if rejected (rq_range q) then W416
+  else if answers_304 stored q then not_modified
+  else wire_spec status (rq_method q) (choose pg (rq_ae q)) (rq_range q).
+(** The server holds the response after a GET/HEAD that was not refused, when the page is one that is stored. *)
+Definition stored_after (caching stored : bool) (q : rreq) : bool :=
+  stored || (caching && get_or_head (rq_method q) && negb (rejected (rq_range q))).
+Fixpoint history_spec (caching : bool) (status : N) (pg : page) (stored : bool) (reqs : list rreq) : list wreply :=
+  match reqs with
+  | [] => []
+  | q :: rest => reply_spec status pg stored q :: history_spec caching status pg (stored_after caching stored q) rest
+  end.
+Definition is_stored (cache : option page) : bool := match cache with Some _ => true | None => false end.
+
+(** The property as a function of the reply that the SAME request WITHOUT any Range line receives in
+    the same state ("the representation that a request without Range would receive"). *)
+Definition unranged (q : rreq) : rreq :=
+  {| rq_method := rq_method q; rq_ae := rq_ae q; rq_ranges := []; rq_ims := rq_ims q |}.
+Definition ranged_of (hdr : option bytes) (w : wreply) : wreply :=
+  if rejected hdr then W416 else
+  match w with
+  | W416 => W416
+  | WResp full =>
+      if N.eqb (w_status full) 304 then WResp full
+      else wire_of GET (w_content_encoding full) (range_spec_st (w_status full) (header_range hdr) (w_body full))
+  end.
 
 Definition strip_body (w : wreply) : wreply :=
   match w with
@@ -143,12 +210,115 @@ Definition page_fits (pg : page) : Prop :=
 (** The cache entry of the URI is absent or holds this page's response. *)
 Definition cache_ok (pg : page) (cache : option page) : Prop := cache = None \/ cache = Some pg.
 
+(** ---- [extensions::stream_body]: a file sent by a response-pipe future ----
+    [handle_cache] never finds such a response in the cache (a future is never stored) and
+    [send] calls [apply_to_response] with [is_stream = true], which does nothing: the extension
+    parses the range itself.  [fixed = true] is today's code (end clamped to the file, 416 when the
+    start is not inside the file, 206 + content-range); [fixed = false] is kvarn 0.6.3
+    (status 200, no content-range, content-length [end - start] with [end] NOT clamped, never 416).
+    [sw_sent] is what the future writes: at most [content-length] bytes are the body of this reply. *)
+Record swire := { sw_head : wire; sw_sent : bytes }.
+Definition stream_prepare (fixed checked : bool) (file : bytes) (range : option (N * N))
+  : outcome (option swire) :=   (* None = the 416 error page *)
+  let file_len := N.of_nat (length file) in
+  let start := match range with Some (s, _) => s | None => 0 end in
+  let unclamped := match range with Some (_, e) => e | None => file_len end in
+  let e := if fixed then N.min unclamped file_len else unclamped in
+  if fixed && (match range with Some _ => file_len <=? start | None => false end) then Ok None else
+  obind (sub_u64 checked e start) (fun len =>
+  let sent := firstn (N.to_nat (N.min e file_len - start)) (skipn (N.to_nat start) file) in
+  let ranged_reply := fixed && (match range with Some _ => true | None => false end) in
+  obind (if ranged_reply then sub_u64 checked e 1 else Ok 0) (fun last =>
+  Ok (Some {| sw_head := {| w_status := if ranged_reply then 206 else 200;
+                            w_content_range :=
+                              if ranged_reply
+                              then Some (B "bytes " ++ dec start ++ B "-" ++ dec last ++ B "/" ++ dec file_len)
+                              else None;
+                            w_content_length := len;
+                            w_content_encoding := None;
+                            w_accept_ranges := false;
+                            w_body := [] |};
+              sw_sent := sent |}))).
+
+(** One request for a streamed file, as the client frames it: [content-length] bytes of body
+    (fewer were sent: the reply never completes — [None]).  GET/POST only: see C08 for HEAD. *)
+Inductive sreply := S416 | SResp (w : wire) | SShort (w : wire) (received : bytes).
+Definition stream_step (fixed checked : bool) (file : bytes) (q : rreq) : outcome sreply :=
+  match sanitize_range (rq_range q) with
+  | Panic => Panic
+  | Err _ => Ok S416                  (* get_response: sanitize_error_into_response, the extension is not called *)
+  | Ok range =>
+      match stream_prepare fixed checked file range with
+      | Panic => Panic
+      | Err e => Err e
+      | Ok None => Ok S416
+      | Ok (Some sw) =>
+          let h := sw_head sw in
+          if N.of_nat (length (sw_sent sw)) <? w_content_length h then Ok (SShort h (sw_sent sw))
+          else Ok (SResp {| w_status := w_status h; w_content_range := w_content_range h;
+                            w_content_length := w_content_length h; w_content_encoding := None;
+                            w_accept_ranges := false;
+                            w_body := firstn (N.to_nat (w_content_length h)) (sw_sent sw) |})
+      end
+  end.
+Definition stream_history (fixed checked : bool) (file : bytes) (reqs : list rreq) : outcome (list sreply) :=
+  fold_right (fun q acc => obind (stream_step fixed checked file q) (fun w => obind acc (fun ws => Ok (w :: ws))))
+             (Ok []) reqs.
+
+(** Specification of a streamed file: the property's [range_spec] of the file's bytes (no content-encoding;
+    [accept-ranges] is not part of the property and not sent by the extension). *)
+Definition stream_spec (file : bytes) (q : rreq) : sreply :=
+  match range_spec (header_range (rq_range q)) file with
+  | R416 => S416
+  | RResp r => SResp {| w_status := r_status r; w_content_range := r_content_range r;
+                        w_content_length := N.of_nat (length (r_body r)); w_content_encoding := None;
+                        w_accept_ranges := false; w_body := r_body r |}
+  end.
+
+(** ---- The special case that Model/Panics.v (C02) builds on: handler status 200, one Range line at most,
+    no If-Modified-Since, GET/HEAD.  Defined BY the general step, so it is the same model. ---- *)
+Record creq := { q_method : meth; q_ae : N; q_range : option bytes }.
+Definition lift_creq (q : creq) : rreq :=
+  {| rq_method := q_method q; rq_ae := q_ae q;
+     rq_ranges := match q_range q with Some v => [v] | None => [] end; rq_ims := 0 |}.
+Definition conn_step (checked caching : bool) (pg : page) (cache : option page) (q : creq)
+  : outcome wreply * option page :=
+  rstep checked caching 200 pg cache (lift_creq q).
+Definition reply_spec_200 (pg : page) (q : creq) : wreply := reply_spec 200 pg false (lift_creq q).
+
+(** ---- small definitions used in the statements and witnesses ---- *)
+(** What the server holds after a history that started with an empty cache. *)
+Definition stored_by (caching : bool) (pre : list rreq) : bool := fold_left (stored_after caching) pre false.
+
+Definition ex_page : page :=
+  [ {| rp_encoding := Some (B "identity"); rp_body := B "0123456789" |};
+    {| rp_encoding := Some (B "gzip"); rp_body := B "GZIPPEDBYTES" |} ].
+Definition ex_conditional : rreq :=
+  {| rq_method := GET; rq_ae := 0; rq_ranges := [B "bytes=0-3"]; rq_ims := 1 |}.
+
+Definition ex_file : bytes := B "0123456789".
+Definition ex_get (v : bytes) : rreq := {| rq_method := GET; rq_ae := 0; rq_ranges := [v]; rq_ims := 0 |}.
+
+(** a ranged GET for the closed interval [r] *)
+Definition range_header (r : N * N) : bytes := B "bytes=" ++ dec (fst r) ++ [c_dash] ++ dec (snd r).
+Definition get_range (ae : N) (r : N * N) : rreq :=
+  {| rq_method := GET; rq_ae := ae; rq_ranges := [range_header r]; rq_ims := 0 |}.
+Definition wbody (w : wreply) : bytes := match w with W416 => [] | WResp w => w_body w end.
+
 (** ---- xval interface ---- *)
+Definition x_wire (w : wire) : xval :=
+  XL [XN (w_status w); x_option XB (w_content_range w); XN (w_content_length w);
+      x_option XB (w_content_encoding w); x_bool (w_accept_ranges w); XB (w_body w)].
 Definition x_wreply (w : wreply) : xval :=
   match w with
   | W416 => XL [XN 416]
-  | WResp w => XL [XN (w_status w); x_option XB (w_content_range w); XN (w_content_length w);
-                   x_option XB (w_content_encoding w); x_bool (w_accept_ranges w); XB (w_body w)]
+  | WResp w => x_wire w
+  end.
+Definition x_sreply (w : sreply) : xval :=
+  match w with
+  | S416 => XL [XN 416]
+  | SResp w => x_wire w
+  | SShort w got => XL [XN 94; x_wire w; XB got]
   end.
 
 Definition d_repr (x : xval) : option repr :=
@@ -160,42 +330,87 @@ Definition d_repr (x : xval) : option repr :=
       end
   | _ => None
   end.
-Definition d_creq (x : xval) : option creq :=
+Definition d_meth (m : N) : option meth :=
+  if N.eqb m 0 then Some GET else if N.eqb m 1 then Some HEAD else if N.eqb m 2 then Some POST else None.
+(** (L method ae (L range ...) [ims]) *)
+Definition d_rreq (x : xval) : option rreq :=
   match x with
   | XL [XN m; XN ae; h] =>
-      match (if N.eqb m 0 then Some GET else if N.eqb m 1 then Some HEAD else None), d_option d_B h with
-      | Some m, Some hdr => Some {| q_method := m; q_ae := ae; q_range := hdr |}
+      match d_meth m, d_list d_B h with
+      | Some m, Some hs => Some {| rq_method := m; rq_ae := ae; rq_ranges := hs; rq_ims := 0 |}
+      | _, _ => None
+      end
+  | XL [XN m; XN ae; h; XN ims] =>
+      match d_meth m, d_list d_B h with
+      | Some m, Some hs => Some {| rq_method := m; rq_ae := ae; rq_ranges := hs; rq_ims := ims |}
+      | _, _ => None
+      end
+  | XL [XN m; XN ae; h; XN ims; XN _] =>
+      (* the 5th field (Accept-Language class) selects the variant of a page with a vary rule: every variant of the
+         fixture's page has the same representations, so the model does not look at it *)
+      match d_meth m, d_list d_B h with
+      | Some m, Some hs => Some {| rq_method := m; rq_ae := ae; rq_ranges := hs; rq_ims := ims |}
       | _, _ => None
       end
   | _ => None
   end.
 
-(** input: (L checked (L cache_on pref_full compress kind) body reprs reqs) *)
-Definition d_conn_case (x : xval) : option (bool * bool * page * list creq) :=
+(** [host::default_status_code_cache_filter]: dropped are 1xx, 304 and the client errors other than 404 and 410. *)
+Definition status_cached (s : N) : bool :=
+  negb (((400 <=? s) && (s <=? 403)) || ((405 <=? s) && (s <=? 409)) || ((411 <=? s) && (s <=? 499))
+        || ((100 <=? s) && (s <=? 199)) || (s =? 304)).
+
+Record conn_case := { cc_checked : bool; cc_caching : bool; cc_kind : N; cc_status : N; cc_body : bytes;
+                      cc_page : page; cc_reqs : list rreq }.
+(** input: (L checked (L cache_on pref_full compress kind [status]) body reprs reqs) *)
+Definition d_conn_case (x : xval) : option conn_case :=
   match x with
-  | XL [c; XL [co; pf; _; _]; XB _; rs; qs] =>
-      match d_bool c, d_bool co, d_bool pf, d_list d_repr rs, d_list d_creq qs with
-      | Some checked, Some cache_on, Some pref_full, Some pg, Some reqs =>
-          Some (checked, cache_on && pref_full, pg, reqs)
-      | _, _, _, _, _ => None
+  | XL [c; XL (co :: pf :: _ :: XN kind :: st); XB body; rs; qs] =>
+      match d_bool c, d_bool co, d_bool pf, d_list d_repr rs, d_list d_rreq qs,
+            (match st with [] => Some 200 | [XN s] => Some s | _ => None end) with
+      | Some checked, Some cache_on, Some pref_full, Some pg, Some reqs, Some status =>
+          Some {| cc_checked := checked; cc_caching := cache_on && pref_full && status_cached status;
+                  cc_kind := kind; cc_status := status; cc_body := body; cc_page := pg; cc_reqs := reqs |}
+      | _, _, _, _, _, _ => None
       end
   | _ => None
   end.
 
 Definition run_serve_history (x : xval) : xval :=
   match d_conn_case x with
-  | Some (checked, caching, pg, reqs) =>
-      x_outcome (x_list x_wreply) (serve_history checked caching pg None reqs)
+  | Some c =>
+      if N.eqb (cc_kind c) 2
+      then x_outcome (x_list x_sreply) (stream_history true (cc_checked c) (cc_body c) (cc_reqs c))
+      else x_outcome (x_list x_wreply)
+             (serve_history (cc_checked c) (cc_caching c) (cc_status c) (cc_page c) None (cc_reqs c))
   | None => bad_input
   end.
 
 (** spec component: the specification evaluated on the same input (oracle run) *)
 Definition run_history_spec (x : xval) : xval :=
   match d_conn_case x with
-  | Some (_, _, pg, reqs) => x_outcome (x_list x_wreply) (Ok (history_spec pg reqs))
+  | Some c =>
+      if N.eqb (cc_kind c) 2
+      then x_outcome (x_list x_sreply) (Ok (map (stream_spec (cc_body c)) (cc_reqs c)))
+      else x_outcome (x_list x_wreply)
+             (Ok (history_spec (cc_caching c) (cc_status c) (cc_page c) false (cc_reqs c)))
+  | None => bad_input
+  end.
+
+(** kvarn 0.6.3 (before the repairs), for replaying the refutation witnesses *)
+Definition run_serve_history_063 (x : xval) : xval :=
+  match d_conn_case x with
+  | Some c =>
+      if N.eqb (cc_kind c) 2
+      then x_outcome (x_list x_sreply) (stream_history false (cc_checked c) (cc_body c) (cc_reqs c))
+      else x_outcome (x_list x_wreply)
+             (fold_right (fun q acc => obind (fst (rstep_063 (cc_checked c) (cc_caching c) (cc_status c) (cc_page c)
+                                                     (Some (cc_page c)) q))
+                                         (fun w => obind acc (fun ws => Ok (w :: ws)))) (Ok []) (cc_reqs c))
   | None => bad_input
   end.
 
 Definition rangeconn_table : list (bytes * (xval -> xval)) :=
   [ (B "range.conn", run_serve_history);
-    (B "range.conn_spec", run_history_spec) ].
+    (B "range.conn_spec", run_history_spec);
+    (B "range.conn_063", run_serve_history_063) ].
